@@ -3,7 +3,8 @@
    Model/FdLedger.v: the descriptor table as a ledger fd -> (owner, close-on-exec, created-by-libuv);
    [run fixed fds ops orc]: a fresh process holding descriptors [fds] runs the libuv operations [ops];
    [orc] is the kernel's answer at each creation point (ok / EMFILE-ENFILE / other failure).
-   [fixed] selects the variant of uv_loop_init with notes/C15_fix_loop_init_leak.diff applied. *)
+   [run true] is the code as it is (after /repo 9298bc0 and 4ad4719); [run false] is the code
+   before those two commits, kept as history with its refutation witnesses. *)
 From UV Require Import Lib.Base Model.FdLedger Proofs.FdLedgerProofs.
 
 (* Every creation step of every operation carries the atomic close-on-exec flag: in the trace of
@@ -17,26 +18,35 @@ Theorem C15_cloexec_by_construction :
 Proof. exact cloexec_by_construction. Qed.
 Print Assumptions C15_cloexec_by_construction.
 
-(* Full statement "every close libuv performs targets a table entry it owns": refuted by
-   uv_spawn's error path after a failing uv__stream_open (process.c:1057-1092): the descriptor
-   of an already opened stdio stream is closed by uv__stream_close and then again by number
-   (ERawClose _ None = the number is not open any more; in a threaded program it may by then
-   belong to somebody else). *)
-Theorem C15_never_close_foreign_refuted :
+(* Every close libuv performs targets a table entry it owns - for every program, oracle and
+   initial table of the current code: every close goes through a descriptor field (EClose) or is
+   a field reset that spares a stdio descriptor (EKeep), the entry hit is owned by libuv (loop,
+   handle, process-wide or call-local, never OUser / OGiven), and there is no close by a
+   remembered number (ERawClose) at all. *)
+Theorem C15_never_close_foreign :
+  forall (fds : list (nat * bool)) (ops : list op) (orc : list ans),
+  let tr := i_tr (snd (run true fds ops orc)) in
+  (forall fd o, In (EClose fd o) tr \/ In (EKeep fd o) tr -> is_lib o = true) /\
+  (forall fd x, ~ In (ERawClose fd x) tr).
+Proof. exact never_close_foreign_current. Qed.
+Print Assumptions C15_never_close_foreign.
+
+(* History (code before 4ad4719): uv_spawn's error path after a failing uv__stream_open closed the
+   descriptor of an already opened stdio stream through the stream and then again by number
+   (ERawClose _ None: the number is not open any more). *)
+Lemma C15_history_spawn_double_close :
   exists (fds : list (nat * bool)) (ops : list op) (orc : list ans) (fd : nat),
   In (ERawClose fd None) (i_tr (snd (run false fds ops orc))).
 Proof. exists stdio3, double_close_prog, [], 13. exact double_close_witness. Qed.
-Print Assumptions C15_never_close_foreign_refuted.
+Print Assumptions C15_history_spawn_double_close.
 
-(* What holds for every program and oracle: every close through a descriptor field (EClose) and
-   every field reset that spares a stdio descriptor (EKeep) hits an entry owned by libuv (loop,
-   handle, process-wide or call-local) - never the caller's (OUser / OGiven). *)
-Theorem C15_never_close_foreign_partial :
+(* ... while the field-based closes were sound in both variants. *)
+Lemma C15_history_field_closes_owned :
   forall (fixed : bool) (fds : list (nat * bool)) (ops : list op) (orc : list ans) (fd : nat) (o : owner),
   In (EClose fd o) (i_tr (snd (run fixed fds ops orc))) \/
   In (EKeep fd o) (i_tr (snd (run fixed fds ops orc))) -> is_lib o = true.
 Proof. exact never_close_foreign. Qed.
-Print Assumptions C15_never_close_foreign_partial.
+Print Assumptions C15_history_field_closes_owned.
 
 (* Descriptors 0-2 wrapped in a stream handle survive uv_close: in any state, uv_close of an open
    tcp/pipe handle h leaves the entry held in h's io_watcher.fd in the table when its number is
@@ -49,21 +59,11 @@ Theorem C15_stdio_survives_uv_close :
 Proof. exact stdio_survives_uv_close. Qed.
 Print Assumptions C15_stdio_survives_uv_close.
 
-(* Balance, for every program, every oracle, every initial table: if the program's last call
-   uv_loop_close() returns 0 (which requires all handles closed), every descriptor left in the table
-   for which libuv is responsible is the process-wide signal lock pipe - or, in the current code,
-   the backend descriptor of a loop instance whose uv_loop_init failed after epoll_create1. *)
-Theorem C15_ledger_balanced_general :
-  forall (fixed : bool) (fds : list (nat * bool)) (ops : list op) (orc : list ans),
-  let st := run fixed fds (ops ++ [OLoopClose]) orc in
-  hd (ERet RC_ERR) (i_tr (snd st)) = ERet RC_OK ->
-  forall fd e, In (fd, e) (i_led (snd st)) -> is_lib (e_owner e) = true ->
-    (exists w, e_owner e = OProc w) \/
-    (exists l, e_owner e = OLoop l SBackend /\ In l (m_leaked (fst st))).
-Proof. intros fixed fds ops orc st H. exact (proj2 (proj2 (ledger_balanced_gen fixed fds ops orc H))). Qed.
-Print Assumptions C15_ledger_balanced_general.
-
-(* With the repair of notes/C15_fix_loop_init_leak.diff (fixed = true) the clause holds in full. *)
+(* Balance - the headline, for the code as it is: for every program, every oracle (a failure may
+   be injected at any creation point of any operation, uv_loop_init's included), every initial
+   table: if the program's last call uv_loop_close() returns 0 (which requires all handles
+   closed), every descriptor left in the table for which libuv is responsible is the process-wide
+   signal lock pipe. *)
 Theorem C15_ledger_balanced :
   forall (fds : list (nat * bool)) (ops : list op) (orc : list ans),
   let st := run true fds (ops ++ [OLoopClose]) orc in
@@ -77,11 +77,23 @@ Proof.
 Qed.
 Print Assumptions C15_ledger_balanced.
 
-(* The current code: refuted.  uv_loop_init fails after uv__platform_loop_init (here: the
+(* Both variants at once: what remains is the lock pipe or - before 9298bc0 only - the backend
+   descriptor of a loop instance whose uv_loop_init failed after epoll_create1. *)
+Theorem C15_ledger_balanced_general :
+  forall (fixed : bool) (fds : list (nat * bool)) (ops : list op) (orc : list ans),
+  let st := run fixed fds (ops ++ [OLoopClose]) orc in
+  hd (ERet RC_ERR) (i_tr (snd st)) = ERet RC_OK ->
+  forall fd e, In (fd, e) (i_led (snd st)) -> is_lib (e_owner e) = true ->
+    (exists w, e_owner e = OProc w) \/
+    (exists l, e_owner e = OLoop l SBackend /\ In l (m_leaked (fst st))).
+Proof. intros fixed fds ops orc st H. exact (proj2 (proj2 (ledger_balanced_gen fixed fds ops orc H))). Qed.
+Print Assumptions C15_ledger_balanced_general.
+
+(* History (code before 9298bc0): uv_loop_init fails after uv__platform_loop_init (here: the
    cloexec rwlock cannot be initialised; the same with EMFILE at the signal pipe or the eventfd),
    the caller retries, closes the loop successfully - and descriptor 3, the first instance's
    epoll descriptor, is still open. *)
-Theorem C15_loop_init_leaks_backend_fd_refuted :
+Lemma C15_history_loop_init_leaked_backend_fd :
   exists (fds : list (nat * bool)) (ops : list op) (orc : list ans),
   let st := run false fds (ops ++ [OLoopClose]) orc in
   hd (ERet RC_ERR) (i_tr (snd st)) = ERet RC_OK /\
@@ -90,32 +102,17 @@ Proof.
   exists stdio3, leak_prog, []. destruct leak_witness as [H1 H2]. split; [exact H1|].
   intros H. destruct (H _ _ H2 eq_refl) as [w Hw]. discriminate Hw.
 Qed.
-Print Assumptions C15_loop_init_leaks_backend_fd_refuted.
-
-(* ... and what holds for it: programs in which no uv_loop_init failed late balance. *)
-Theorem C15_ledger_balanced_partial :
-  forall (fds : list (nat * bool)) (ops : list op) (orc : list ans),
-  let st := run false fds (ops ++ [OLoopClose]) orc in
-  hd (ERet RC_ERR) (i_tr (snd st)) = ERet RC_OK ->
-  m_leaked (fst st) = [] ->
-  forall fd e, In (fd, e) (i_led (snd st)) -> is_lib (e_owner e) = true -> exists w, e_owner e = OProc w.
-Proof.
-  intros fds ops orc st H Hk fd e Hin Hl. subst st.
-  destruct (ledger_balanced_gen false fds ops orc H) as (_ & _ & Hb).
-  destruct (Hb fd e Hin Hl) as [Hw | (l & _ & Hl')]; [exact Hw|].
-  cbn zeta in Hl'. rewrite Hk in Hl'. destruct Hl'.
-Qed.
-Print Assumptions C15_ledger_balanced_partial.
+Print Assumptions C15_history_loop_init_leaked_backend_fd.
 
 (* The hypotheses are satisfiable by a non-trivial run: listen, connect, accept, close
    everything, uv_loop_close() = 0, nothing leaked, table = stdio + lock pipe. *)
 Example C15_balanced_example :
-  let st := run false stdio3 (tcp_prog ++ [OLoopClose]) [] in
+  let st := run true stdio3 (tcp_prog ++ [OLoopClose]) [] in
   hd (ERet RC_ERR) (i_tr (snd st)) = ERet RC_OK /\ m_leaked (fst st) = [] /\ length (i_led (snd st)) = 5.
 Proof. exact tcp_example. Qed.
 
-(* The repaired variant on the refutation witness: only stdio and the lock pipe remain. *)
-Example C15_fixed_on_witness :
+(* The current code on the old refutation witness: only stdio and the lock pipe remain. *)
+Example C15_current_on_old_witness :
   i_led (snd (run true stdio3 (leak_prog ++ [OLoopClose]) [])) =
   [(6, mkE (OProc true) true true); (5, mkE (OProc false) true true);
    (0, mkE OUser false false); (1, mkE OUser false false); (2, mkE OUser false false)].
